@@ -44,7 +44,7 @@ class BuildResult:
 
 def _run(cmd, cwd=None, timeout=COQ_TIMEOUT, env=None):
     e = dict(os.environ)
-    e.update({'PYTHONPATH': REPO_SRC, 'PYTHONHASHSEED': '0', 'LC_ALL': 'C'})
+    e.update({'PYTHONPATH': VERIF + os.pathsep + REPO_SRC, 'PYTHONHASHSEED': '0', 'LC_ALL': 'C'})
     if env:
         e.update(env)
     try:
@@ -157,7 +157,7 @@ def make_targets(targets, res, jobs=16):
 def prop_targets(prop):
     """.vo targets for one property: its Properties file and its extraction file (if present)."""
     t = []
-    for rel in (f'theories/Properties/{prop}.v', f'theories/Extract/Ex{prop}.v'):
+    for rel in (f'theories/Properties/{prop}.v', f'theories/Properties/{prop}Findings.v', f'theories/Extract/Ex{prop}.v'):
         if os.path.exists(os.path.join(COQ, rel)):
             t.append(rel[:-2] + '.vo')
     return t
@@ -250,8 +250,11 @@ def _requires(vfile):
     txt = open(vfile).read()
     txt = re.sub(r'\(\*.*?\*\)', '', txt, flags=re.S)
     mods = []
-    for m in re.finditer(r'(From\s+NDN\s+)?Require\s+(?:Import\s+|Export\s+)?((?:[\w.]+\s*)+)\.', txt):
-        for name in m.group(2).split():
+    for m in re.finditer(r'(From\s+NDN\s+)?Require\s+(?:Import\s+|Export\s+)?', txt):
+        end = re.search(r'\.(\s|$)', txt[m.end():])
+        if not end:
+            continue
+        for name in txt[m.end(): m.end() + end.start()].split():
             if name.startswith('NDN.'):
                 name = name[4:]
             elif not m.group(1):
